@@ -29,6 +29,7 @@ def gen_fea(rng):
     g = pick(BASES, 8)
     L.append("feature kern {")
     L.append(f"  lookup P1 {{ pos {g[0]} {g[1]} {v()}; pos {g[0]} {g[2]} {v()}; pos {g[3]} <{v()} 0 {v()} 0> {g[1]} <{v()} 0 0 0>; pos {g[4]} {g[0]} {v()}; pos {g[2]} {g[5]} {v()}; }} P1;")
+    L.append("  lookup P3 { " + " ".join(f"pos {a} {g[0]} {v()};" for a in BASES[:11]) + " } P3;")
     L.append(f"  lookup P2 {{ pos [{g[0]} {g[5]}] [{g[6]} {g[7]}] {v()}; pos [{g[1]} {g[2]}] [{g[3]} {g[6]}] {v()}; }} P2;")
     L.append("} kern;")
     # Cursive
@@ -86,7 +87,7 @@ def gen_fea(rng):
     return "\n".join(L) + "\n"
 
 
-def build_font(fea_text, glyph_order=None):
+def build_font(fea_text, glyph_order=None, colr_rng=None):
     from fontTools.fontBuilder import FontBuilder
     from fontTools.pens.ttGlyphPen import TTGlyphPen
     from fontTools.feaLib.builder import addOpenTypeFeaturesFromString
@@ -112,6 +113,20 @@ def build_font(fea_text, glyph_order=None):
     fb.setupOS2(sTypoAscender=800, sTypoDescender=-200, usWinAscent=800, usWinDescent=200)
     fb.setupPost(keepGlyphNames=True)
     addOpenTypeFeaturesFromString(fb.font, fea_text)
+    if colr_rng is not None:
+        from fontTools.colorLib import builder
+        r = colr_rng
+        pal = [(0, 0, 0, 1.0), (1.0, 0, 0, 1.0), (0, 0.6, 0, 1.0), (0, 0, 1.0, 1.0)]
+
+        def leaf():
+            return {"Format": 10, "Glyph": r.choice(["x1", "x2", "x3", "lig1", "m1"]), "Paint": {"Format": 2, "PaletteIndex": r.randrange(4), "Alpha": 1.0}}
+
+        glyphs = {}
+        for name in r.sample(BASES, 5):
+            glyphs[name] = {"Format": 1, "Layers": [leaf() if r.random() < 0.7 else {"Format": 14, "Paint": leaf(), "dx": r.randint(-50, 50), "dy": 0}
+                                                     for _ in range(r.randint(1, 3))]}
+        fb.font["COLR"] = builder.buildCOLR(glyphs, version=1)
+        fb.font["CPAL"] = builder.buildCPAL([pal])
     buf = io.BytesIO()
     fb.font.save(buf)
     return ttLib.TTFont(io.BytesIO(buf.getvalue()), lazy=False)
@@ -266,7 +281,26 @@ def name_keyed_basics(font):
         pen = DecomposingRecordingPen(gs)
         gs[g].draw(pen)
         outlines[g] = tuple((v, tuple(a)) for v, a in pen.value)
-    return {"cmap": tuple(sorted(font.getBestCmap().items())), "hmtx": tuple(sorted((g, tuple(font["hmtx"][g])) for g in font.getGlyphOrder())),
+    colr = ()
+    if "COLR" in font and font["COLR"].version == 1:
+        t = font["COLR"].table
+        layer_list = t.LayerList.Paint if t.LayerList else []
+
+        def dump(p):
+            f = p.getFormatName()
+            if f == "PaintColrLayers":
+                return (f, tuple(dump(c) for c in layer_list[p.FirstLayerIndex:p.FirstLayerIndex + p.NumLayers]))
+            out = [f]
+            for a in ("Glyph", "PaletteIndex", "Alpha", "dx", "dy"):
+                if hasattr(p, a):
+                    out.append((a, getattr(p, a)))
+            for a in ("Paint", "SourcePaint", "BackdropPaint"):
+                if getattr(p, a, None) is not None:
+                    out.append(dump(getattr(p, a)))
+            return tuple(out)
+
+        colr = tuple(sorted((rec.BaseGlyph, dump(rec.Paint)) for rec in t.BaseGlyphList.BaseGlyphPaintRecord))
+    return {"colr": colr, "cmap": tuple(sorted(font.getBestCmap().items())), "hmtx": tuple(sorted((g, tuple(font["hmtx"][g])) for g in font.getGlyphOrder())),
             "outlines": tuple(sorted(outlines.items()))}
 
 
